@@ -7,7 +7,7 @@ open ShVerif ShVerif.L3 ShVerif.Drv.L3
     `compiles m p`        model of "regexp.Compile accepts the result" (yes/no/na), `wf m p` subset grammar
     `rx m p alpha n`      model regexp semantics on all strings ≤ n over alpha (validates the regexp assumption)
     `matcher m p alpha n` model of internal.ExtendedPatternMatcher
-    `spec m p alpha n`    the reference semantics globMatch (the property itself)
+    `spec m p alpha n`    the reference semantics globMatch (the property itself); `specl m p s*` on listed strings
     `bashspec m p s*`     globMatch on the listed strings (validated against bash by the harness)
     `malformed m p`       reference parser verdict -/
 def handle (args : List String) : String :=
@@ -56,6 +56,13 @@ def handle (args : List String) : String :=
       | some _ => "malformed"
       | none => bits (globMatch m p) (enumStrs alpha n)
     | _, _, _, _ => "bad-op"
+  | "specl" :: m :: p :: strs =>
+    match parseMode m, runesOfHex p, strs.mapM runesOfHex with
+    | some m, some p, some strs =>
+      match malformed m p with
+      | some _ => "malformed"
+      | none => bits (globMatch m p) strs
+    | _, _, _ => "bad-op"
   | "bashspec" :: m :: p :: strs =>
     match parseMode m, runesOfHex p, strs.mapM runesOfHex with
     | some m, some p, some strs => bits (globMatch m p) strs
